@@ -127,6 +127,17 @@ def model_request(ws, sim, dataset=0):
     return f"wavesim {ops} ; {dels} ; {caps} ; {' '.join(stim)}"
 
 
+def owner_caps(ws):
+    """memory location -> capacity of the signal that is WRITTEN there (op output or input slot); only meaningful without
+    memory reuse, where every written signal has its own region"""
+    opsA = np.array(ws.ops)
+    written = set(int(r[1]) for r in opsA) | set(ws.ppi_offset + int(s) for s in ws.pippi_s_locs)
+    out = {}
+    for w in written:
+        if int(ws.c_locs[w]) >= 0: out.setdefault(int(ws.c_locs[w]), int(ws.c_caps[w]))
+    return out
+
+
 def real_signals(ws, sim):
     """token per signal index (as the driver prints): waveform of every signal that an op or the stimulus writes"""
     c = np.array(ws.c)
